@@ -3,6 +3,7 @@ from .common import cssutils, init, esc, unesc, outcome  # noqa: F401
 from cssutils.css import CSSVariablesDeclaration
 
 PROBES = ["x", "X", "~x", "y", "Y", "zz", "q"]
+COMMENTS = [False]      # variant: a comment before every variable of a text assignment
 
 
 def value_text(v):
@@ -35,12 +36,14 @@ def apply(vd, a):
     if op == "delitem":
         return outcome(lambda: vd.__delitem__(unesc(a["lit"])))
     if op == "settext":
-        return outcome(lambda: setattr(vd, "cssText", "; ".join("%s: %s" % (unesc(d["lit"]), value_text(d["value"])) for d in a["decls"])))
+        pre = "/*c*/ " if COMMENTS[0] else ""
+        return outcome(lambda: setattr(vd, "cssText", "; ".join(pre + "%s: %s" % (unesc(d["lit"]), value_text(d["value"])) for d in a["decls"])))
     raise ValueError(op)
 
 
 def run_trace(item):
     init()
+    COMMENTS[0] = bool(item.get("comments"))
     vd = CSSVariablesDeclaration()
     tr = {"id": item["id"], "init": project(vd), "steps": []}
     for a in item["actions"]:
